@@ -85,7 +85,7 @@ and the slot map holds slots of the segment, then after the action – any instr
 collection that follows it the attachment pointers form a forest again. -/
 theorem doAction_forest {is : List Instr} {dl : Bool} {mr : Nat} {data : List Nat} {ctx : Ctx} {l : List Nat}
     (hl : Linked ctx.seg l) (hc : Clean ctx.seg l) (hh : HwOK ctx.highwater l)
-    (hcell : IsOK ctx.seg l (ctx.smap.getD ((ctx.context : Int) + 1).toNat none))
+    (hcell : IsOK ctx.seg l (ctx.smap.getD ((ctx.context : Int) + 1).toNat none)) (ha : Alloc ctx.seg l)
     (hF : Forest ctx.seg) (hcells : CellsOK ctx)
     {r : Int} {st : Status} {so : Option Nat} {c : Ctx}
     (e : doAction is dl mr data ctx = .ok (r, st, so, c)) : Forest c.seg := by
@@ -93,7 +93,7 @@ theorem doAction_forest {is : List Instr} {dl : Bool} {mr : Nat} {data : List Na
   simp only [] at e
   split at e
   · cases e; exact hF
-  · have h0 : PF (enterCtx (startCtx ctx)) := ⟨⟨l, ⟨hl, hc, hcell, hh⟩⟩, hF, hcells⟩
+  · have h0 : PF (enterCtx (startCtx ctx)) := ⟨⟨l, ⟨hl, hc, hcell, hh, ha⟩⟩, hF, hcells⟩
     have hr := runLoop_preserves PF ops_PF is { vm := initVm data, ctx := enterCtx (startCtx ctx) } h0
     split at e
     · cases e
@@ -146,7 +146,7 @@ theorem findNDoRule_forest (p : PassT) (c : Ctx) (slot : Nat) {l : List Nat} (h 
           · rename_i ret status slotOut c2 hact
             have hcell : IsOK c1.seg l (c1.smap.getD ((c1.context : Int) + 1).toNat none) := by rw [f1]; exact f3 _
             have hcells : CellsOK c1 := cellsOK_of_isok (JO.linked h1) (JO.clean h1) (fun k => by rw [f1]; exact f3 k)
-            have hF2 := doAction_forest (JO.linked h1) (JO.clean h1) (JO.hw h1) hcell hF1 hcells hact
+            have hF2 := doAction_forest (JO.linked h1) (JO.clean h1) (JO.hw h1) hcell (JO.alloc h1) hF1 hcells hact
             split at e
             · cases e; exact hF2
             · have a1 := adjustSlot_seg c2 ret slotOut
@@ -203,7 +203,7 @@ theorem ruleLoop_forest (p : PassT) : ∀ (fuel : Nat) (c : Ctx) (s : Nat) (lc :
 
 theorem runPass_forest (p : PassT) (c : Ctx) (fuel : Nat) (h : WF c.seg) (hF : Forest c.seg) {c' : Ctx}
     (e : runPass p c fuel = .ok (some c')) : Forest c'.seg := by
-  obtain ⟨l, hl, hc⟩ := h
+  obtain ⟨l, hl, hc, hal⟩ := h
   unfold runPass at e
   split at e
   · cases e; exact hF
@@ -218,7 +218,7 @@ theorem runPass_forest (p : PassT) (c : Ctx) (fuel : Nat) (h : WF c.seg) (hF : F
         cases e
         have hs0l : s0 ∈ l := head?_mem (by rw [← hl.first]; exact hs0)
         have j0 : JO (c.restartAt s0) l (some s0) :=
-          JO.mk' hl hc (isok_of_mem hs0l) (fun x hx => next_mem hl hs0l x hx)
+          JO.mk' hl hc (isok_of_mem hs0l) (fun x hx => next_mem hl hs0l x hx) hal
         rw [noteLoop_seg]
         exact ruleLoop_forest p fuel _ s0 _ 0 j0 (show Forest (c.restartAt s0).seg from hF) hr
 
